@@ -640,3 +640,148 @@ Proof.
   apply (ti_live _ T k). rewrite E. apply live_ann_app_no_remove; auto.
   pose proof (ti_ann _ T) as A. rewrite E in A. apply ann_ok_app in A. cbn in A. cbn. tauto.
 Qed.
+
+(* ---- an Update is never the first thing the detector hears about a key ---- *)
+
+Definition notupd (e : event) : Prop := forall k, e <> EUpd k.
+
+Ltac grow_cands :=
+  first [ exists []; split; [reflexivity|constructor]
+        | eexists [_]; split; [reflexivity|repeat constructor; discriminate]
+        | eexists [_; _]; split; [reflexivity|repeat constructor; discriminate]
+        | eexists [_; _; _]; split; [reflexivity|repeat constructor; discriminate]
+        | eexists [_; _; _; _]; split; [reflexivity|repeat constructor; discriminate] ].
+
+Lemma register_grows pinned c k w :
+  exists evs, trace (register pinned c k w) = evs ++ trace c /\ Forall notupd evs.
+Proof.
+  unfold register. destruct (decoys c k) eqn:K.
+  - rewrite K. destruct (negb pinned && negb (Nat.eqb n w)); [|destruct (o_valid (objs c n))]; grow_cands.
+  - destruct (decoys (fresh_track c k w) k); [destruct (negb pinned && negb (Nat.eqb n w)); [|destruct (o_valid _)]|];
+      cbn; grow_cands.
+Qed.
+
+Lemma validate_grows pinned share c w m :
+  exists evs, trace (validate pinned share c w m) = evs ++ trace c /\ Forall notupd evs.
+Proof.
+  unfold validate.
+  set (c1 := if m_detector m && share then add_event (EShare w) c else c).
+  assert (E : exists e1, trace c1 = e1 ++ trace c /\ Forall notupd e1)
+    by (unfold c1; destruct (m_detector m && share); cbn; grow_cands).
+  destruct E as (e1 & E1 & F1). clearbody c1.
+  destruct (m_detector m && at_pol (m_ph_blocked m) (pol c)); cbn.
+  - exists e1. auto.
+  - destruct (register_grows pinned c1 (m_key m) w) as (e2 & E2 & F2). exists (e2 ++ e1). split.
+    + rewrite E2, E1. now rewrite app_assoc.
+    + apply Forall_app. auto.
+Qed.
+
+Lemma wstep_grows split share c w m pc c' pc' :
+  wstep split share c w m pc = (c', pc') -> exists evs, trace c' = evs ++ trace c /\ Forall notupd evs.
+Proof.
+  intros H. destruct pc; cbn in H.
+  - crush_match H; inversion H; subst; cbn; grow_cands.
+  - inversion H; subst. unfold track. destruct (decoys c (m_key m)); cbn; grow_cands.
+  - crush_match H; inversion H; subst; cbn; grow_cands.
+  - crush_match H; inversion H; subst; try grow_cands. apply validate_grows.
+  - crush_match H; inversion H; subst; try grow_cands. apply validate_grows.
+  - inversion H; subst. grow_cands.
+Qed.
+
+Lemma sstep_grows c ch pc c' pc' :
+  sstep c ch pc = (c', pc') -> thr c' = thr c /\ exists evs, trace c' = evs ++ trace c /\ Forall notupd evs.
+Proof.
+  intros S. destruct pc; cbn in S; try (inversion S; subst; split; auto; grow_cands).
+  destruct (existsb (Nat.eqb ch) l); inversion S; subst.
+  - unfold remove_key. destruct (timeouts c ch); [|split; auto; grow_cands].
+    destruct (decoys c ch); [|split; auto; grow_cands].
+    destruct (o_valid (objs c n0)); split; auto; cbn; grow_cands.
+  - split; auto. grow_cands.
+Qed.
+
+Lemma live_ann_In k tr : live_ann k tr = true -> exists o r, In (EAnn k o r) tr.
+Proof.
+  induction tr as [|e tr IH]; cbn; [discriminate|]. destruct e; intros H;
+    try (destruct (IH H) as (o' & r' & I); exists o', r'; now right).
+  - destruct (Nat.eqb_spec k0 k).
+    + subst. exists o, resolved. now left.
+    + destruct (IH H) as (o' & r' & I). exists o', r'. now right.
+  - destruct (Nat.eqb_spec k0 k); [discriminate|]. destruct (IH H) as (o' & r' & I). exists o', r'. now right.
+Qed.
+
+Fixpoint upd_ok (tr : list event) : Prop :=
+  match tr with
+  | [] => True
+  | EUpd k :: r => (exists o x, In (EAnn k o x) r) /\ upd_ok r
+  | _ :: r => upd_ok r
+  end.
+
+Definition UI (c : cfg) : Prop :=
+  (forall t k o, thr c t = THandler k (H1 o) -> exists o' r, In (EAnn k o' r) (trace c)) /\ upd_ok (trace c).
+
+Lemma upd_ok_app evs tr : Forall notupd evs -> upd_ok tr -> upd_ok (evs ++ tr).
+Proof.
+  induction 1 as [|e evs N _ IH]; cbn; intros U; auto.
+  specialize (IH U). destruct e; auto. exfalso. eapply N; reflexivity.
+Qed.
+
+Lemma UI_other c c' t th evs :
+  thr c' = thr c -> trace c' = evs ++ trace c -> Forall notupd evs ->
+  (forall k o, th <> THandler k (H1 o)) -> UI c -> UI (set_thr c' t th).
+Proof.
+  intros Eth E F N [U1 U2]. split; cbn.
+  - intros t' k o H. unfold upd in H. destruct (Nat.eqb_spec t' t); [exfalso; eapply N; eauto|].
+    rewrite Eth in H. destruct (U1 _ _ _ H) as (o' & r & I). exists o', r. rewrite E. apply in_or_app. now right.
+  - rewrite E. now apply upd_ok_app.
+Qed.
+
+Lemma step_UI split share c a : TI c -> UI c -> UI (step split share c a).
+Proof.
+  intros T U. destruct a as [t ch|k d]; cbn.
+  2:{ destruct (timeouts c k); auto. }
+  destruct (thr c t) eqn:Ht; auto.
+  - destruct (wstep split share c t m pc) as [c' pc'] eqn:W.
+    destruct (wstep_mono _ _ _ _ _ _ _ _ W) as (_ & Eth & _).
+    destruct (wstep_grows _ _ _ _ _ _ _ _ W) as (evs & E & F).
+    eapply UI_other; eauto. discriminate.
+  - destruct (sstep c ch pc) as [c' pc'] eqn:S.
+    destruct (sstep_grows _ _ _ _ _ S) as (Eth & evs & E & F).
+    eapply UI_other; eauto. discriminate.
+  - destruct U as [U1 U2]. destruct pc; cbn.
+    + destruct (decoys c k) as [o|] eqn:Hd.
+      * destruct (o_valid (objs c o)) eqn:V.
+        -- assert (L : live_ann k (trace c) = true) by (apply (ti_live _ T k); eauto).
+           destruct (live_ann_In _ _ L) as (o' & r & I).
+           split; cbn; auto.
+           intros t' k' o0 H. unfold upd in H. destruct (Nat.eqb_spec t' t).
+           ++ inversion H; subst. exists o', r. now right.
+           ++ destruct (U1 _ _ _ H) as (o1 & r1 & I1). exists o1, r1. now right.
+        -- apply (UI_other c c t _ []); auto; try discriminate. split; auto.
+      * apply (UI_other c c t _ []); auto; try discriminate. split; auto.
+    + destruct (U1 _ _ _ Ht) as (o' & r & I).
+      destruct (timeouts c k).
+      * split; cbn.
+        -- intros t' k' o0 H. unfold upd in H. destruct (Nat.eqb_spec t' t); [discriminate|].
+           destruct (U1 _ _ _ H) as (o1 & r1 & I1). exists o1, r1. now right.
+        -- split; eauto.
+      * apply (UI_other c c t _ []); auto; try discriminate. split; auto.
+    + apply (UI_other c c t _ []); auto; try discriminate. split; auto.
+  - destruct done; auto. apply (UI_other c (set_pol c p) t _ []); auto. discriminate.
+Qed.
+
+Lemma upd_ok_suffix tr1 tr : upd_ok (tr1 ++ tr) -> upd_ok tr.
+Proof. induction tr1 as [|e tr1 IH]; cbn; auto. destruct e; tauto. Qed.
+
+Lemma update_after_new_lemma : forall split share ths acts,
+  (forall t, handler_fresh (nth t ths TNone) = true) ->
+  forall k tr1 tr2, trace (run split share (init ths) acts) = tr1 ++ EUpd k :: tr2 ->
+  exists o r, In (EAnn k o r) tr2.
+Proof.
+  intros split share ths acts F.
+  assert (G : forall acts c, TI c -> UI c -> UI (run split share c acts)).
+  { induction acts0 as [|a l IH]; cbn; intros; auto. apply IH; [now apply step_TI|now apply step_UI]. }
+  assert (U0 : UI (init ths)).
+  { split; cbn; auto. intros t k o H. specialize (F t). rewrite H in F. discriminate. }
+  destruct (G acts _ (TI_init ths) U0) as [_ U]. intros k tr1 tr2 E. rewrite E in U.
+  apply upd_ok_suffix in U. cbn in U. tauto.
+Qed.
